@@ -137,8 +137,11 @@ def _value_of_world(world, salt):
 class Det(Base):
     """Readable, Triggerable, Stageable, Configurable detector."""
 
-    def __init__(self, world, name, keys=None, trigger_delay=0.0, salt=0.0, async_read=False, cfg=None, pausable=False):
+    def __init__(
+        self, world, name, keys=None, trigger_delay=0.0, salt=0.0, async_read=False, cfg=None, pausable=False, stage_status=None
+    ):
         super().__init__(world, name)
+        self.stage_status = stage_status  # None: stage()/unstage() return lists; float: a Status finishing after that delay
         self.keys = list(keys or [name])
         self.trigger_delay = trigger_delay
         self.salt = salt
@@ -176,15 +179,19 @@ class Det(Base):
         return st
 
     def stage(self):
-        self.world.maybe_raise(self.name, "stage")
+        f = self.world.maybe_raise(self.name, "stage")
         self.staged += 1
         self.world.log(self.name, "stage")
+        if self.stage_status is not None:
+            return self.world.status(self.name, "stage", self.stage_status, f)
         return [self]
 
     def unstage(self):
-        self.world.maybe_raise(self.name, "unstage")
+        f = self.world.maybe_raise(self.name, "unstage")
         self.staged -= 1
         self.world.log(self.name, "unstage")
+        if self.stage_status is not None:
+            return self.world.status(self.name, "unstage", self.stage_status, f)
         return [self]
 
     def read_configuration(self):
